@@ -17,6 +17,11 @@
    order parseLogicalOr ... parseMultiplicative); the table of the code itself is
    re-extracted from the C++ text into Gen_LadderTable.v on every run.
 
+   Identifiers are numbers that carry the two facts about their SPELLING / DECLARATION the parser
+   looks at: [id_upper] (the name starts with an upper-case letter: the `Name<T>` and sizeof
+   heuristics of parsePrimary) and [id_type] (the name is a declared typedef / struct / enum / union /
+   interface / type parameter: the cast look-ahead); identifier 0 is `sizeof`.
+
    Definitions only: total, computable, extractable. *)
 From Coq Require Import List Arith NArith ZArith Bool.
 Import ListNotations.
@@ -34,7 +39,14 @@ Inductive tok :=
 | TNot | TTilde | TInc | TDec
 | TLP | TRP | TLB | TRB | TDot | TArrow | TQ | TColon | TComma
 | TAsg (o : option binop)            (* =  and  op= *)
-| TSemi | TRBrace | TOther.
+| TSemi | TRBrace | TOther
+| TKw (k : nat).                     (* keyword type: 0 int 1 long 2 short 3 tiny 4 float 5 double 6 bool
+                                        7 string 8 char 9 void *)
+
+(* identifier classes: x = 4 * k + 2 * (names a type) + (upper-case initial); 0 = `sizeof` *)
+Definition id_upper (x : nat) : bool := Nat.odd x.
+Definition id_type (x : nat) : bool := Nat.odd (Nat.div2 x).
+Definition is_sizeof (x : nat) : bool := x =? 0.
 
 Inductive expr :=
 | Num (n : N)                          (* AST_NUMBER *)
@@ -47,11 +59,13 @@ Inductive expr :=
 | Idx (a i : expr)                     (* AST_ARRAY_REF *)
 | Mem (a : expr) (m : nat)             (* AST_MEMBER_ACCESS *)
 | Arrow (a : expr) (m : nat)           (* AST_ARROW_ACCESS *)
-| Call (f : nat) (args : list expr)    (* AST_FUNC_CALL *)
+| Call (f : nat) (args : list expr)    (* AST_FUNC_CALL; Call 0 [e] = sizeof(e), AST_SIZEOF_EXPR *)
+| MCall (arrow : bool) (a : expr) (m : nat) (args : list expr)   (* a.m(args) / a->m(args): AST_FUNC_CALL with receiver *)
 | Tern (c a b : expr)                  (* AST_TERNARY_OP *)
 | Asg (o : option binop) (l r : expr)  (* AST_ASSIGN; op= is desugared when dumped *)
 | EProp (a : expr)                     (* result only: AST_ERROR_PROPAGATION  e? *)
-| Cast (ty : list tok) (a : expr)      (* result only: AST_CAST_EXPR from "( ident... ) unary" *)
+| Cast (ty : list tok) (a : expr)      (* AST_CAST_EXPR "( type ) unary"; source construct for keyword types *)
+| SizeofT                              (* result only: sizeof(Type) *)
 | Generic (n : nat) (call : expr).     (* result only: ident<targs>(args), n type arguments *)
 
 Inductive res (A : Type) := Ok (a : A) | Err | Fuel.
@@ -152,7 +166,7 @@ Fixpoint targs_one (d : nat) (ne : bool) (ts : list tok) : option (bool * list t
       | TOp GtO => match d with O => Some (ne, ts) | S d' => targs_one d' true r end
       | TComma => match d with O => Some (ne, ts) | S _ => None end
       | TOp LtO => targs_one (S d) true r
-      | TId _ | TOp Mul | TLB | TRB | TNum _ => targs_one d true r
+      | TId _ | TOp Mul | TLB | TRB | TNum _ | TKw _ => targs_one d true r
       | _ => None
       end
   end.
@@ -197,23 +211,69 @@ Fixpoint ty_stars (acc : list tok) (ts : list tok) : option (list tok * list tok
   | TOp Mul :: r => ty_stars (acc ++ [TOp Mul]) r
   | _ => ty_refs acc ts
   end.
-(* the model's identifiers are variables and functions: none of them is a typedef / struct / enum /
-   union / interface name or a type parameter *)
-Definition names_type (x : nat) : bool := false.
-
 (* primary_expression_parser.cpp, cast-vs-parenthesis look-ahead (since fix 34a2124): `(` was consumed;
-   `( identifier ...` is tried as a type only if the identifier names a type (may_be_type); then a
-   cast iff parseType succeeds and `)` follows.  Returns the type and the tokens after `)`. *)
+   a keyword type, or an identifier that names a declared type (may_be_type: typedef_map_ /
+   struct_ / enum_ / union_ / interface_definitions_ / a type parameter - NOT the spelling of the
+   name), is tried as a type; then a cast iff parseType succeeds and `)` follows.  Returns the type
+   and the tokens after `)`.  A `(` directly after the base type starts a function type
+   (`int(int)`): not modelled, answered "no cast" (the harness keeps such streams out). *)
+Definition cast_from (t : tok) (r : list tok) : option (list tok * list tok) :=
+  match r with
+  | TLP :: _ => None
+  | _ => match ty_stars [t] r with
+         | Some (ty, TRP :: r') => Some (ty, r')
+         | _ => None
+         end
+  end.
 Definition cast_type (ts : list tok) : option (list tok * list tok) :=
   match ts with
-  | TId x :: r =>
-      if names_type x then
-        match ty_stars [TId x] r with
-        | Some (ty, TRP :: r') => Some (ty, r')
-        | _ => None
-        end
-      else None
+  | TKw k :: r => cast_from (TKw k) r
+  | TId x :: r => if id_type x then cast_from (TId x) r else None
   | _ => None
+  end.
+
+(* primary_expression_parser.cpp:241-301, the `Name<T>` heuristic: an identifier with an upper-case
+   initial directly followed by `<` is taken for a generic type name and the tokens up to the matching
+   `>` are skipped ([depth] open brackets); only tokens of a type-argument list may occur, anything
+   else (and the end of input) is a parse error.  Returns the tokens after the closing `>`. *)
+Fixpoint upper_skip (depth : nat) (ts : list tok) : option (list tok) :=
+  match ts with
+  | [] => None
+  | t :: r =>
+      match t with
+      | TOp LtO => upper_skip (S depth) r
+      | TOp GtO => match depth with S (S d) => upper_skip (S d) r | _ => Some r end
+      | TComma | TId _ | TOp Mul | TLB | TRB | TNum _ | TKw _ => upper_skip depth r
+      | _ => None
+      end
+  end.
+Definition name_skip (x : nat) (r : list tok) : option (list tok) :=
+  if id_upper x then match r with TOp LtO :: r1 => upper_skip 1 r1 | _ => Some r end else Some r.
+
+(* primary_expression_parser.cpp:163-231, sizeof( ... ): the operand is taken for a TYPE when it starts
+   with a keyword type (tiny is missing from the list) or with an upper-case identifier: then one
+   token, an optional <...> (skipped without looking at the tokens), '*'s. *)
+Definition sizeof_type_start (ts : list tok) : bool :=
+  match ts with
+  | TKw k :: _ => negb (k =? 3)
+  | TId y :: _ => id_upper y
+  | _ => false
+  end.
+Fixpoint sz_skip (depth : nat) (ts : list tok) : list tok :=
+  match ts with
+  | [] => []
+  | TOp LtO :: r => sz_skip (S depth) r
+  | TOp GtO :: r => match depth with S (S d) => sz_skip (S d) r | _ => r end
+  | _ :: r => sz_skip depth r
+  end.
+Fixpoint skip_stars (ts : list tok) : list tok :=
+  match ts with TOp Mul :: r => skip_stars r | _ => ts end.
+(* tokens after the type, [] when there is none *)
+Definition sizeof_type (ts : list tok) : list tok :=
+  match ts with
+  | _ :: TOp LtO :: r => skip_stars (sz_skip 1 r)
+  | _ :: r => skip_stars r
+  | [] => []
   end.
 
 (* ------------------------------------------------------------------ parser *)
@@ -338,10 +398,17 @@ with post_loop (f : nat) (e : expr) (ts : list tok) {struct f} : res (expr * lis
             | (i, TRB :: r') => post_loop f (Idx e i) r'
             | _ => Err
             end)
-      | TDot :: TId m :: r => if starts_lp r then Err (* method call: not modelled *)
-                              else post_loop f (Mem e m) r
+      | TDot :: TId m :: r =>        (* parseMemberAccess: a method call when `(` follows *)
+          match r with
+          | TLP :: r1 => bind (p_args f true r1) (fun ar => let (args, r2) := ar in post_loop f (MCall false e m args) r2)
+          | _ => post_loop f (Mem e m) r
+          end
       | TDot :: _ => Err
-      | TArrow :: TId m :: r => if starts_lp r then Err else post_loop f (Arrow e m) r
+      | TArrow :: TId m :: r =>      (* parseArrowAccess *)
+          match r with
+          | TLP :: r1 => bind (p_args f true r1) (fun ar => let (args, r2) := ar in post_loop f (MCall true e m args) r2)
+          | _ => post_loop f (Arrow e m) r
+          end
       | TArrow :: _ => Err
       | TInc :: r => Ok (Post true e, r)
       | TDec :: r => Ok (Post false e, r)
@@ -355,25 +422,47 @@ with p_primary (f : nat) (ts : list tok) {struct f} : res (expr * list tok) :=
   | S f =>
       match ts with
       | TNum n :: r => Ok (Num n, r)
-      | TId x :: TOp LtO :: r1 =>
-          if generic_scan_b scan_bound 1 r1 then
-            (* taken for a generic call: parse the type arguments, then the call *)
-            match targs_list (S (length r1)) 0 r1 with
-            | Some (n, TLP :: r2) =>
-                bind (p_args f r2) (fun ar =>
-                  let (args, r3) := ar in
-                  if starts_lp r3 then Err (* chained call: not modelled *)
-                  else Ok (Generic n (Call x args), r3))
-            | Some (_, r2) => Ok (Var x, r2)
-            | None => Err
+      | TId x :: r =>
+          if is_sizeof x && starts_lp r then
+            (* sizeof( type | expression ) *)
+            match r with
+            | TLP :: r1 =>
+                if sizeof_type_start r1 then
+                  match sizeof_type r1 with
+                  | TRP :: r2 => Ok (SizeofT, r2)
+                  | _ => Err
+                  end
+                else
+                  bind (p_assign f r1) (fun er =>
+                    match er with
+                    | (e, TRP :: r2) => Ok (Call x [e], r2)
+                    | _ => Err
+                    end)
+            | _ => Err
             end
-          else Ok (Var x, TOp LtO :: r1)
-      | TId x :: TLP :: r1 =>
-          bind (p_args f r1) (fun ar =>
-            let (args, r2) := ar in
-            if starts_lp r2 then Err (* chained call f(x)(y): not modelled *)
-            else Ok (Call x args, r2))
-      | TId x :: r => Ok (Var x, r)
+          else
+            match name_skip x r with        (* the `Name<T>` heuristic for upper-case names *)
+            | None => Err
+            | Some (TOp LtO :: r1) =>
+                if generic_scan_b scan_bound 1 r1 then
+                  (* taken for a generic call: parse the type arguments, then the call *)
+                  match targs_list (S (length r1)) 0 r1 with
+                  | Some (n, TLP :: r2) =>
+                      bind (p_args f false r2) (fun ar =>
+                        let (args, r3) := ar in
+                        if starts_lp r3 then Err (* chained call: not modelled *)
+                        else Ok (Generic n (Call x args), r3))
+                  | Some (_, r2) => Ok (Var x, r2)
+                  | None => Err
+                  end
+                else Ok (Var x, TOp LtO :: r1)
+            | Some (TLP :: r1) =>
+                bind (p_args f false r1) (fun ar =>
+                  let (args, r2) := ar in
+                  if starts_lp r2 then Err (* chained call f(x)(y): not modelled *)
+                  else Ok (Call x args, r2))
+            | Some r0 => Ok (Var x, r0)
+            end
       | TLP :: r =>
           match cast_type r with
           | Some (ty, r') =>   (* "(type) unary" *)
@@ -388,11 +477,13 @@ with p_primary (f : nat) (ts : list tok) {struct f} : res (expr * list tok) :=
       | _ => Err
       end
   end
-with p_args (f : nat) (ts : list tok) {struct f} : res (list expr * list tok) :=
+with p_args (f : nat) (trail : bool) (ts : list tok) {struct f} : res (list expr * list tok) :=
   match f with
   | O => Fuel
   | S f =>
-      (* `(` consumed: if (!check(RPAREN)) do { parseExpression } while (match(COMMA)); consume(RPAREN) *)
+      (* `(` consumed: if (!check(RPAREN)) do { parseExpression } while (match(COMMA)); consume(RPAREN).
+         [trail]: the argument loop of parseMemberAccess / parseArrowAccess (method calls) leaves when
+         `)` follows a comma, i.e. it accepts a trailing comma; a function call does not *)
       match ts with
       | TRP :: r => Ok ([], r)
       | _ =>
@@ -400,8 +491,8 @@ with p_args (f : nat) (ts : list tok) {struct f} : res (list expr * list tok) :=
             match ar with
             | (a, TComma :: r) =>
                 match r with
-                | TRP :: _ => Err      (* after a comma an expression is required *)
-                | _ => bind (p_args f r) (fun asr => let (l, r') := asr in Ok (a :: l, r'))
+                | TRP :: r' => if trail then Ok ([a], r') else Err      (* after a comma an expression is required *)
+                | _ => bind (p_args f trail r) (fun asr => let (l, r') := asr in Ok (a :: l, r'))
                 end
             | (a, TRP :: r) => Ok ([a], r)
             | _ => Err
@@ -437,8 +528,8 @@ Definition lev (e : expr) : nat :=
   | Bin o _ _ => lvl tbl o + 1
   | Un _ _ | Pre _ _ | Cast _ _ => L + 2
   | Post _ _ => L + 3
-  | Idx _ _ | Mem _ _ | Arrow _ _ => L + 4
-  | Num _ | Var _ | Par _ | Call _ _ | Generic _ _ => L + 5
+  | Idx _ _ | Mem _ _ | Arrow _ _ | MCall _ _ _ _ => L + 4
+  | Num _ | Var _ | Par _ | Call _ _ | Generic _ _ | SizeofT => L + 5
   end.
 
 Fixpoint pr (c : nat) (e : expr) {struct e} : list tok :=
@@ -461,11 +552,19 @@ Fixpoint pr (c : nat) (e : expr) {struct e} : list tok :=
            | [] => [TRP]
            | a :: l' => pr 0 a ++ match l' with [] => [TRP] | _ => TComma :: go l' end
            end) args
+    | MCall ar a m args =>
+        pr (L + 4) a ++ (if ar then TArrow else TDot) :: TId m :: TLP ::
+        (fix go (l : list expr) : list tok :=
+           match l with
+           | [] => [TRP]
+           | a :: l' => pr 0 a ++ match l' with [] => [TRP] | _ => TComma :: go l' end
+           end) args
     | Tern c0 a b => pr 2 c0 ++ TQ :: pr 1 a ++ TColon :: pr 1 b
     | Asg o l r => pr 1 l ++ TAsg o :: pr 0 r
     | EProp a => pr 2 a ++ [TQ]
     | Cast ty a => TLP :: ty ++ TRP :: pr (L + 2) a
     | Generic _ a => pr (L + 5) a
+    | SizeofT => [TId 0; TLP; TKw 0; TRP]
     end in
   if c <=? lev e then body else TLP :: body ++ [TRP].
 
@@ -485,24 +584,34 @@ Fixpoint strip (e : expr) : expr :=
   | Mem a m => Mem (strip a) m
   | Arrow a m => Arrow (strip a) m
   | Call f args => Call f (map strip args)
+  | MCall ar a m args => MCall ar (strip a) m (map strip args)
   | Tern c a b => Tern (strip c) (strip a) (strip b)
   | Asg o l r => Asg o (strip l) (strip r)
   | EProp a => EProp (strip a)
   | Cast ty a => Cast ty (strip a)
   | Generic n a => Generic n (strip a)
+  | SizeofT => SizeofT
   end.
 
+(* the types of source casts: a keyword type followed by '*'s *)
+Definition is_star (t : tok) : bool := match t with TOp Mul => true | _ => false end.
+Definition wf_ty (ty : list tok) : bool :=
+  match ty with TKw _ :: st => forallb is_star st | _ => false end.
+
 (* source expressions the round-trip theorem speaks about: built from the documented operators
-   (no result-only node), assignment targets the parser accepts *)
+   (no result-only node), assignment targets the parser accepts, sizeof with exactly one operand,
+   casts to keyword types *)
 Fixpoint wf (e : expr) : bool :=
   match e with
   | Num _ | Var _ => true
   | Par a | Un _ a | Pre _ a | Post _ a | Mem a _ | Arrow a _ => wf a
   | Bin _ a b | Idx a b => wf a && wf b
-  | Call _ args => forallb wf args
+  | Call f args => forallb wf args && (if is_sizeof f then length args =? 1 else true)
+  | MCall _ a _ args => wf a && forallb wf args
   | Tern c a b => wf c && wf a && wf b
   | Asg o l r => wf l && wf r && valid_target o (strip l)
-  | EProp _ | Cast _ _ | Generic _ _ => false
+  | Cast ty a => wf_ty ty && wf a
+  | EProp _ | Generic _ _ | SizeofT => false
   end.
 
 (* every operand in explicit parentheses ("fully parenthesised"); literals and identifiers stay bare *)
@@ -521,29 +630,73 @@ Fixpoint full (e : expr) : expr :=
   | Mem a m => Mem (wrap (full a)) m
   | Arrow a m => Arrow (wrap (full a)) m
   | Call f args => Call f (map full args)
+  | MCall ar a m args => MCall ar (wrap (full a)) m (map full args)
   | Tern c a b => Tern (wrap (full c)) (wrap (full a)) (wrap (full b))
   | Asg o l r => Asg o (full l) (wrap (full r))
   | EProp a => EProp (full a)
-  | Cast ty a => Cast ty (full a)
+  | Cast ty a => Cast ty (wrap (full a))
   | Generic n a => Generic n (full a)
+  | SizeofT => SizeofT
   end.
 
 (* ------------------------------------------------------------------ hazards of the primary level *)
 Definition is_id (t : tok) : bool := match t with TId _ => true | _ => false end.
 
-(* [safeb ts]: no `identifier <` of the stream trips the generic-call look-ahead of parsePrimary, i.e.
-   no `ident < (tokens that may occur in type arguments) > (` (known finding C02-generic-lookahead:
-   at parse time nothing tells a generic function name from a variable).  The cast look-ahead
-   (former finding C02-paren-ident-cast) cannot fire on a non-type identifier any more. *)
-Fixpoint safeb (ts : list tok) : bool :=
+(* [safeb ts]: the stream trips none of the four token-shape heuristics of parsePrimary (each a known
+   finding, each clause exact):
+   (a) `ident < (tokens that may occur in type arguments) > (` - the generic-call look-ahead
+       (C02-generic-lookahead: at parse time nothing tells a generic function name from a variable);
+   (b) `Ident <` with an upper-case initial - the `Name<T>` heuristic (C02-upper-ident-lt);
+   (c) `sizeof ( Ident` with an upper-case initial - the sizeof heuristic (C02-sizeof-upper-ident);
+   (d) `( T '*'* ... )` where the identifier T names a declared type and the `(` opens a primary
+       expression - the cast look-ahead (C02-type-named-variable-cast).
+   [prev] is the kind of the preceding token: after `.`/`->` an identifier is a member name (no
+   primary, none of (a)-(c)); a `(` directly after an identifier opens an argument list (no primary
+   parenthesis, no (d)).  A non-type identifier in parentheses is never a cast (fix 34a2124). *)
+Inductive pkind := PkNone | PkId | PkDot.
+Definition pk_of (t : tok) : pkind :=
+  match t with TId _ => PkId | TDot | TArrow => PkDot | _ => PkNone end.
+Definition hazard (prev : pkind) (t : tok) (r : list tok) : bool :=
+  match t with
+  | TId x =>
+      match prev with
+      | PkDot => false
+      | _ => match r with
+             | TOp LtO :: r1 => id_upper x || generic_scan 1 r1
+             | TLP :: TId y :: _ => is_sizeof x && id_upper y
+             | _ => false
+             end
+      end
+  | TLP =>
+      match prev with
+      | PkId => false
+      | _ => match r with
+             | TId _ :: _ => match cast_type r with Some _ => true | None => false end
+             | _ => false
+             end
+      end
+  | _ => false
+  end.
+Fixpoint safe_from (prev : pkind) (ts : list tok) : bool :=
+  match ts with
+  | [] => true
+  | t :: r => negb (hazard prev t r) && safe_from (pk_of t) r
+  end.
+Definition safeb (ts : list tok) : bool := safe_from PkNone ts.
+
+(* a purely syntactic sufficient condition: no `>` directly before `(`, no upper-case identifier
+   directly before `<` or directly after `sizeof (`, no type-named identifier directly after `(` *)
+Fixpoint syn_safe (ts : list tok) : bool :=
   match ts with
   | [] => true
   | t :: r =>
-      negb (match t with
-            | TId _ => match r with TOp LtO :: r1 => generic_scan 1 r1 | _ => false end
-            | _ => false
-            end)
-      && safeb r
+      negb (match t, r with
+            | TOp GtO, TLP :: _ => true
+            | TId x, TOp LtO :: _ => id_upper x
+            | TId x, TLP :: TId y :: _ => is_sizeof x && id_upper y
+            | TLP, TId y :: _ => id_type y
+            | _, _ => false
+            end) && syn_safe r
   end.
 
 (* the generator's syntactic avoidance for the generic look-ahead: no `>` directly before `(` *)
@@ -618,6 +771,7 @@ Fixpoint eval_fn (fn : nat -> list Z -> option Z) (env : nat -> Z) (e : expr) : 
       | Some x, Some y, Some z => Some (if Z.eqb x 0 then z else y)
       | _, _, _ => None
       end
+  | Cast [TKw 0] a => eval_fn fn env a          (* (int) of a 32-bit value *)
   | Call f args =>
       match (fix go (l : list expr) : option (list Z) :=
                match l with
